@@ -16,7 +16,7 @@ RULE = ("Hypothesis-generated stores (0-12 objects of the 7 stored types, 2-3 ow
         "states via Activate/Revoke, 0-3 names (text or URI typed), 0-2 object groups, 0-2 "
         "application-specific-information entries, usage masks, sensitive flags, algorithms/lengths, "
         "creation times from the harness clock: distinct seconds, same second, clock set back, "
-        "owner-less legacy rows) x Locate requests (every requester incl. a stranger, group "
+        "owner-less legacy rows, objects destroyed again) x Locate requests (every requester incl. a stranger, group "
         "information, KMIP 1.0-2.0, conjunctions of 0-4 filters over the 13 attributes of the "
         "statement with values biased to the store, 1-3 Initial Date values, offset/maximum in "
         "{absent, 0..n+1, -1}, page walks).  One evaluation = one (store, request) pair: the "
@@ -669,7 +669,12 @@ def judge_request(srv, pols, model, req):
         out["classes"].append("excluded:not-expressible")
         return out
     if r1["status"] != "SUCCESS":
-        if r1["reason"] == "GENERAL_FAILURE" or r1["status"] == "REQUEST_ERROR":
+        if r1["status"] == "REQUEST_ERROR":
+            out["excluded"].append("request refused before the Locate handler ran (%s; judged "
+                                   "by C02/C13)" % r1["reason"])
+            out["classes"].append("excluded:request-level-error")
+            return out
+        if r1["reason"] == "GENERAL_FAILURE":
             out["excluded"].append("Locate answered General Failure (judged by C13)")
             out["classes"].append("excluded:general-failure")
             return out
@@ -729,7 +734,6 @@ def judge_request(srv, pols, model, req):
         for i in range(0, len(full) + k, k):
             pages.append([i, k])
     cut = False
-    walk_cat = []
     for off, mx in pages:
         if (off is not None and off < 0) or (mx is not None and mx < 0):
             out["classes"].append("dontcare:negative-offset-or-maximum")
